@@ -145,6 +145,52 @@ POOL_ROUTES = [
 ]
 
 
+
+# route R12: while a handle derived from a parent (an owned scope from by_value, a scope behind a guard,
+# a claim guard, a settings-converted exclusive borrow, an exclusive-borrow collection, as_mut_scope of a
+# Bump) is alive, the parent must not be usable in a conflicting way - otherwise the parent could open
+# and close a scope (or reset) underneath allocations made through the child.
+# (name, declaration of `c` from parent `s`, expression producing x through c, child holds the parent exclusively)
+ALIAS_CHILDREN = [
+    ("by_value", "let mut c = s.by_value();", "c.alloc_str(\"a\")", True),
+    ("try_by_value", "let mut c = s.try_by_value().unwrap();", "c.alloc_str(\"a\")", True),
+    ("guard_scope", "let mut g0 = s.scope_guard(); let c = g0.scope();", "c.alloc_str(\"a\")", True),
+    ("claim", "let c = s.claim();", "c.alloc_str(\"a\")", False),
+    ("borrow_mut_with_settings", "let c: &mut BumpScope<Global, BumpSettings<8>> = s.borrow_mut_with_settings();", "c.alloc_str(\"a\")", True),
+    ("mut_bump_vec", "let mut c: MutBumpVec<u8, _> = MutBumpVec::new_in(&mut *s);", "{ c.push(1u8); c.len() }", True),
+    ("mut_bump_string", "let mut c = MutBumpString::new_in(&mut *s);", "{ c.push('a'); c.len() }", True),
+    ("bump_vec_shared", "let mut c: BumpVec<u8, _> = BumpVec::new_in(&*s);", "{ c.push(1u8); c.len() }", False),
+    # (Stats<'a> is deliberately not a child here: it carries the scope's lifetime, not a borrow of the
+    #  handle, and chunk headers stay valid for that lifetime - holding it across parent operations is allowed)
+]
+# (name, statement using the parent `s`, needs the parent exclusively)
+ALIAS_PARENT_USES = [
+    ("scope_guard", "let _g = s.scope_guard();", True),
+    ("scoped", "s.scoped(|i| { touch(&i.alloc(1u8)); });", True),
+    ("by_value", "let _v = s.by_value();", True),
+    ("alloc_iter_mut", "let _m = s.alloc_iter_mut([1u8, 2]);", True),
+    ("alloc", "let _y = s.alloc_str(\"b\");", False),
+]
+
+
+def gen_alias_programs():
+    for (cn, decl, prod, cexcl) in ALIAS_CHILDREN:
+        for (un, use, uexcl) in ALIAS_PARENT_USES:
+            if not (cexcl or uexcl):
+                continue
+            mf = f"let mut bump: Bump = Bump::new();\nbump.scoped(|s| {{ {decl} let x = {prod}; {use} touch(&x); touch(&c); }});"
+            ctl = f"let mut bump: Bump = Bump::new();\nbump.scoped(|s| {{ {{ {decl} let x = {prod}; touch(&x); touch(&c); }} {use} }});"
+            yield (f"R12_parent_{un}_while__{cn}", mf, ctl)
+    # the owned Bump as parent
+    for (cn, decl, cexcl) in [("as_mut_scope", "let c = bump.as_mut_scope();", True), ("as_scope", "let c = bump.as_scope();", False), ("claim", "let c = bump.claim();", False)]:
+        for (un, use, uexcl) in [("reset", "bump.reset();", True), ("scoped", "bump.scoped(|i| { touch(&i.alloc(1u8)); });", True), ("alloc", "let _y = bump.alloc(1u8);", False)]:
+            if not (cexcl or uexcl):
+                continue
+            mf = f"let mut bump: Bump = Bump::new();\n{decl} let x = c.alloc_str(\"a\"); {use} touch(&x); touch(&c);"
+            ctl = f"let mut bump: Bump = Bump::new();\n{{ {decl} let x = c.alloc_str(\"a\"); touch(&x); touch(&c); }} {use}"
+            yield (f"R12_bump_{un}_while__{cn}", mf, ctl)
+
+
 def gen_borrow_programs():
     """yield (id, must_fail_body, control_body or None)"""
     for (pn, pexpr, pmut) in PRODUCERS:
@@ -335,12 +381,14 @@ def main(tier, seed, rest):
     os.makedirs(WORK, exist_ok=True)
     target_dir = os.path.join(WORK, "target")
     progs = list(gen_borrow_programs())
-    total_grammar = len(progs)
+    always = list(gen_alias_programs())
+    total_grammar = len(progs) + len(always)
     rng = random.Random(seed)
     if tier != "thorough":
-        # a seeded sample stratified by route; always the same size
+        # a seeded sample stratified by route; always the same size (the small R12 family is always in)
         rng.shuffle(progs)
         progs = progs[:1200]
+    progs = progs + always
     progs.sort()
     violations = []
     generator_defects = []
